@@ -39,8 +39,9 @@ ASSUMPTIONS = [
     "targets {1, 2.5, 8e5, 0}; length compared with relative tolerance 1e-12, direction with absolute 1e-12 per "
     "component; zero cells and target 0 are compared exactly",
     "reference lengths are computed in exact rational arithmetic from the float components actually stored",
-    "negative or non-finite targets, integer/complex dtypes and wrong norm specifications are outside the statement and "
-    "are not enumerated",
+    "negative or non-finite targets, complex dtypes and wrong norm specifications are outside the statement and are not "
+    "enumerated; integer-typed fields: norm and orientation (new fields) are demanded in unit get_int, the norm SETTER is "
+    "not (the result could not be stored in the integer array)",
 ]
 
 SHAPES_T = [(1,), (3,), (8,), (2, 2), (2, 4), (1, 3), (2, 2, 2), (1, 2, 3)]
@@ -345,6 +346,42 @@ def unit_get(ctx):
     if C.field_snap(f) != before:
         ctx.fail("Field.norm-get/field-modified", "reading norm / orientation changed the field", instance=inst)
 
+INT_VECS = {1: [(3,), (0,), (-2,), (7,)], 2: [(3, 4), (0, 0), (-5, 12), (0, -2)], 3: [(3, 4, 0), (0, 0, 0), (1, -2, 2), (0, 0, -7)],
+            4: [(1, -2, 2, -4), (0, 0, 0, 0), (0, 3, 0, 4), (5, 0, 0, 0)]}
+
+
+def unit_get_int(ctx):
+    """integer-typed fields (a field of counts or lattice vectors stored with dtype=int): norm and orientation are derived
+    NEW fields, so they exist and are the Euclidean length / the unit vector just as for the float field with the same
+    values (the norm SETTER would have to store non-integers in an integer array and is not demanded here)"""
+    n = ctx.choose("n", [(4,), (2, 2)])
+    d = ctx.choose("nvdim", [1, 2, 3, 4])
+    rot = ctx.choose("first-vector", [0, 1, 2, 3])
+    mesh = mk_mesh(n)
+    cells = [tuple(int(i) for i in idx) for idx in np.ndindex(*n)]
+    arr = np.zeros((*n, d), dtype=int)
+    for j, idx in enumerate(cells):
+        arr[idx] = INT_VECS[d][(j + rot) % 4]
+    f = df.Field(mesh, nvdim=d, value=arr.copy(), dtype=int)
+    inst = ctx.key()
+    ctx.step(2, "norm, orientation of an integer-typed field")
+    nf, of = f.norm.array, f.orientation.array
+    ctx.observe(nf, of)
+    for idx in cells:
+        v = arr[idx].astype(float)
+        L = exact_len(v)
+        ctx.check(2)
+        if not (float(nf[idx][0]) == 0.0 if L == 0 else abs(float(nf[idx][0]) - L) <= 1e-12 * L):
+            ctx.fail("Field.norm/not-the-euclidean-length/integer-typed-field", f"cell {idx}: {v.tolist()} norm {nf[idx][0]!r} "
+                     f"expected {L!r}", instance=inst)
+            return
+        exp = v / L if L else v
+        if not np.all(np.abs(np.asarray(of[idx], dtype=float) - exp) <= 1e-12):
+            ctx.fail("Field.orientation/not-the-unit-vector/integer-typed-field", f"cell {idx}: {v.tolist()} orientation "
+                     f"{np.asarray(of[idx]).tolist()} expected {exp.tolist()}", instance=inst)
+            return
+
+
 def _state_ok(ctx, f, tag, inst):
     """norm / orientation / norm setter against the values the field holds NOW"""
     cur = np.array(f.array, dtype=float)
@@ -441,5 +478,6 @@ def units(tier):
     return [
         {"name": "set", "fn": unit_set, "bound": None},
         {"name": "get", "fn": unit_get, "bound": None},
+        {"name": "get_int", "fn": unit_get_int, "bound": None},
         {"name": "reuse", "fn": unit_reuse, "bound": None},
     ]
